@@ -184,7 +184,7 @@ def r4_callers(ctx):
                 if tt["k"] == "call":
                     for a in tt["args"]:
                         tr = ex.operand(a)
-                        if tr[0] == "&" and B.base_leaf(tr)[0] == "param" and "&mut" in (f["locals"][a["pl"]["l"]]["ty"] if a["k"] != "const" else ""):
+                        if a["k"] != "const" and B.base_leaf(tr)[0] == "param" and "&mut" in f["locals"][a["pl"]["l"]]["ty"]:
                             writes.append((x, tt["line"], "call " + (tt["callee"].get("key") or "?")))
             ok = not writes
             ctx.ob(rid, "%s|error-arm-writes-no-state" % key, ok,
